@@ -247,6 +247,11 @@ def check_property(mod, tier, seed, replay=None):
     problems = []      # broken obligations / correspondence (each: dict(kind=..., detail=...))
     prop_module = getattr(mod, 'LEAN_MODULE', 'NurbsVerif.Props.' + pid)
 
+    # 0. property specific generation step that must precede the build (C12: regenerate Gen/Effects.lean)
+    if hasattr(mod, 'pre_build'):
+        for pr in (mod.pre_build(tier) or {}).get('problems', []):
+            problems.append(pr)
+
     # 1. build
     build = lean_build([prop_module] + list(getattr(mod, 'EXTRA_TARGETS', [])))
     names = theorems_of(prop_module)
